@@ -861,3 +861,79 @@ impl SymmetricKey {
 pub broadcast axiom fn axiom_symkey_data_inj(a: SymmetricKey, b: SymmetricKey)
     requires #[trigger] a.key_cbor_data() == #[trigger] b.key_cbor_data()
     ensures a == b;
+
+// ============================================================================ SSKR (bc-components / sskr / bc-shamir)
+#[verifier::external_body]
+#[derive(Debug)]
+pub struct SSKRShare { _p: () }
+impl Clone for SSKRShare {
+    #[verifier::external_body]
+    fn clone(&self) -> (r: Self) ensures r == *self { unimplemented!() }
+}
+pub uninterp spec fn sskr_share_cbor(x: SSKRShare) -> CBOR;
+impl vstd::std_specs::convert::FromSpecImpl<SSKRShare> for CBOR {
+    open spec fn obeys_from_spec() -> bool { true }
+    open spec fn from_spec(x: SSKRShare) -> Self { sskr_share_cbor(x) }
+}
+impl From<SSKRShare> for CBOR {
+    #[verifier::external_body]
+    fn from(x: SSKRShare) -> Self { unimplemented!() }
+}
+
+impl vstd::std_specs::convert::TryFromSpecImpl<CBOR> for SSKRShare {
+    open spec fn obeys_try_from_spec() -> bool { false }
+    uninterp spec fn try_from_spec(c: CBOR) -> Result<SSKRShare, Error>;
+}
+impl TryFrom<CBOR> for SSKRShare {
+    type Error = Error;
+    // [A-sskr-share-codec]
+    #[verifier::external_body]
+    fn try_from(c: CBOR) -> (r: Result<SSKRShare, Error>)
+        ensures r matches Ok(s) ==> sskr_share_cbor(s) == c
+    { unimplemented!() }
+}
+impl SSKRShare {
+    pub uninterp spec fn ident(&self) -> u16;
+    #[verifier::external_body]
+    pub fn identifier(&self) -> (r: u16) ensures r == self.ident() { unimplemented!() }
+}
+#[verifier::external_body]
+pub struct SSKRSpec { _p: () }
+#[verifier::external_body]
+pub struct SSKRSecret { _p: () }
+impl SSKRSecret {
+    pub uninterp spec fn bytes(&self) -> Seq<u8>;
+    // [A-sskr-secret-new]
+    #[verifier::external_body]
+    pub fn new(data: &[u8; 32]) -> (r: Result<SSKRSecret>) ensures r matches Ok(s) ==> s.bytes() == data@ { unimplemented!() }
+}
+// Shamir semantics are entirely in the dependency: what a set of shares combines to is uninterpreted.
+pub uninterp spec fn sskr_combine_spec(shares: Seq<SSKRShare>) -> Option<Seq<u8>>;
+// [A-sskr-generate] / [A-sskr-combine]
+#[verifier::external_body]
+pub fn sskr_generate_using<R: RandomNumberGenerator>(spec: &SSKRSpec, master_secret: &SSKRSecret, rng: &mut R) -> (r: Result<Vec<Vec<SSKRShare>>>)
+{ unimplemented!() }
+#[verifier::external_body]
+pub fn sskr_combine(shares: &Vec<SSKRShare>) -> (r: Result<SSKRSecret>)
+    ensures (r is Ok) == (sskr_combine_spec(shares@) is Some), r matches Ok(s) ==> Some(s.bytes()) == sskr_combine_spec(shares@)
+{ unimplemented!() }
+impl SymmetricKey {
+    pub uninterp spec fn key_bytes(&self) -> Seq<u8>;
+    // [A-symkey-data]
+    #[verifier::external_body]
+    pub fn data(&self) -> (r: &[u8; 32]) ensures r@ == self.key_bytes() { unimplemented!() }
+    #[verifier::external_body]
+    pub fn from_data_ref(secret: &SSKRSecret) -> (r: Result<SymmetricKey>)
+        ensures r matches Ok(k) ==> k.key_bytes() == secret.bytes()
+    { unimplemented!() }
+}
+// HashMap<u16, Vec<SSKRShare>> grouping used by sskr_shares_in:
+//   `result.entry(id).and_modify(|shares| shares.push(share.clone())).or_insert(vec![share]);`  (rule R-subst)
+// [A-hashmap-group-push] appends the share to the group with that identifier (creating it if absent)
+#[verifier::external_body]
+pub fn hashmap_group_push(map: &mut HashMap<u16, Vec<SSKRShare>>, id: u16, share: SSKRShare)
+{ unimplemented!() }
+// `map.values().cloned().collect()`  (rule R-subst)  [A-hashmap-values]
+#[verifier::external_body]
+pub fn hashmap_values_cloned(map: HashMap<u16, Vec<SSKRShare>>) -> (r: Vec<Vec<SSKRShare>>)
+{ unimplemented!() }
